@@ -154,6 +154,8 @@ Theorem C11_depth_find_path : forall vars cons pend st v to mm,
 Proof. exact find_path_depth_le_block. Qed.
 Print Assumptions C11_depth_find_path.
 
+(* (is_adp tests u = v before it spends fuel, so `blk_size` levels of fuel allow blk_size + 1
+   nested activations of isActiveDirectedPathBetween: the tie allows exactly that one more) *)
 Theorem C11_depth_directed_path : forall vars cons pend st v to,
   Inv vars cons pend st -> (v < length vars)%nat ->
   exists b, is_adp cons (blk_size st v) st v to = Ok b.
